@@ -100,7 +100,7 @@ static const size_t ARENA_SIZE = 12ULL << 30;
 static const size_t ARENA_LO = 4ULL << 30;  // islands live in [base+4G, base+8G)
 static const size_t ARENA_HI = 8ULL << 30;
 static const uintptr_t ARENA_FIXED = 0x200000000000ULL;
-static const size_t MAX_ANON = 64 * 6000 + 8192;  // growth cap of one anonymous mapping
+static const size_t MAX_ANON = 4u << 20;  // growth cap of one anonymous mapping (runaway guard): 4 MiB
 
 static const char *K_NAMES[K_N] = {"malloc", "calloc", "free",   "mmap",   "mmap_file", "mremap", "munmap",
                                    "open",   "fstat",  "close",  "read",   "fopen",     "fwrite", "fclose",
@@ -121,6 +121,7 @@ int ans_from_name(const std::string &s) {
 static const struct { int e; const char *n; } E_NAMES[] = {
     {ENOMEM, "ENOMEM"}, {EAGAIN, "EAGAIN"}, {EINVAL, "EINVAL"}, {ENOENT, "ENOENT"}, {EACCES, "EACCES"},
     {EMFILE, "EMFILE"}, {EIO, "EIO"},       {ENOSPC, "ENOSPC"}, {EISDIR, "EISDIR"}, {ENODEV, "ENODEV"},
+    {EOVERFLOW, "EOVERFLOW"}, {EFBIG, "EFBIG"}, {EEXIST, "EEXIST"},
     {EBADF, "EBADF"},   {EINTR, "EINTR"},   {EFAULT, "EFAULT"}, {ENFILE, "ENFILE"}, {EDQUOT, "EDQUOT"},
     {0, "0"}};
 const char *errno_name(int e) {
@@ -168,11 +169,22 @@ struct SimState {
 };
 static SimState G;
 static const int FD_BASE = 1000;
+// descriptor numbers: the k-th descriptor of a run is FD_BASE+k; with a world in which descriptor 0 is free
+// (the caller closed stdin) the first one is 0, as open(2) hands out the lowest free number
+static inline int fd_of_index(int k);
+static inline int index_of_fd(int fd);
 
 static __thread OpCtx *t_ctx = nullptr;
 OpCtx *cur_ctx() { return t_ctx; }
 void set_cur_ctx(OpCtx *c) { t_ctx = c; }
 static inline bool in_lib() { return t_ctx && t_ctx->in_lib; }
+
+static inline int fd_of_index(int k) { return (k == 0 && G.w.fd0_free) ? 0 : FD_BASE + k; }
+static inline int index_of_fd(int fd) {
+  if (fd == 0 && G.w.fd0_free) return 0;
+  if (fd < FD_BASE) return -1;
+  return fd - FD_BASE;
+}
 
 void OpCtx::reset_op(const std::vector<EnvAns> *e, uint64_t uid) {
   env = e;
@@ -766,7 +778,7 @@ extern "C" void *__wrap_mmap(void *addr, size_t len, int prot, int flags, int fd
     return is->base;
   }
   // file mapping
-  int k = fd - FD_BASE;
+  int k = index_of_fd(fd);
   if (k < 0 || k >= (int)G.fds.size() || !G.fds[k].open) {
     errno = EBADF;
     return MAP_FAILED;
@@ -989,7 +1001,7 @@ extern "C" int __wrap_open(const char *path, int flags, ...) {
   fd.writable = wr;
   fd.append = (flags & O_APPEND) != 0;
   G.fds.push_back(fd);
-  return FD_BASE + (int)G.fds.size() - 1;
+  return fd_of_index((int)G.fds.size() - 1);
 }
 // write(2) from real code: to a descriptor of the simulated file system (a tree that bypasses stdio),
 // or to the process's stdout/stderr
@@ -1013,7 +1025,7 @@ extern "C" ssize_t __wrap_write(int fd, const void *buf, size_t n) {
   if (fd == 1) {
     G.out_cap.append((const char *)buf, take);
   } else {
-    int k = fd - FD_BASE;
+    int k = index_of_fd(fd);
     if (k < 0 || k >= (int)G.fds.size() || !G.fds[k].open || !G.fds[k].writable) {
       errno = EBADF;
       return -1;
@@ -1046,7 +1058,7 @@ extern "C" int __wrap_fileno(FILE *f) {
       fd.open = true;
       fd.file = is->file;
       G.fds.push_back(fd);
-      is->fd = FD_BASE + (int)G.fds.size() - 1;
+      is->fd = fd_of_index((int)G.fds.size() - 1);
     }
     return is->fd;
   }
@@ -1057,7 +1069,7 @@ extern "C" int __wrap_fileno(FILE *f) {
     fd.file = ot->second->file;
     fd.writable = true;
     G.fds.push_back(fd);
-    return FD_BASE + (int)G.fds.size() - 1;
+    return fd_of_index((int)G.fds.size() - 1);
   }
   return __real_fileno(f);
 }
@@ -1070,7 +1082,7 @@ extern "C" int __wrap_fstat(int fd, struct stat *st) {
     errno = a->err ? a->err : EIO;
     return -1;
   }
-  int k = fd - FD_BASE;
+  int k = index_of_fd(fd);
   if (k < 0 || k >= (int)G.fds.size() || !G.fds[k].open) {
     errno = EBADF;
     return -1;
@@ -1109,7 +1121,7 @@ extern "C" int __wrap_close(int fd) {
   if (!in_lib()) return __real_close(fd);
   HarnessScope hs_;
   answer(K_CLOSE);
-  int k = fd - FD_BASE;
+  int k = index_of_fd(fd);
   if (k < 0 || k >= (int)G.fds.size() || !G.fds[k].open) {
     sim_reject("close: descriptor is not open");
     errno = EBADF;
@@ -1132,7 +1144,7 @@ extern "C" ssize_t __wrap_read(int fd, void *buf, size_t n) {
     errno = a->err ? a->err : EIO;
     return -1;
   }
-  int k = fd - FD_BASE;
+  int k = index_of_fd(fd);
   if (k < 0 || k >= (int)G.fds.size() || !G.fds[k].open) {
     errno = EBADF;
     return -1;
@@ -1267,7 +1279,7 @@ extern "C" int __wrap_fclose(FILE *f) {
     auto it = G.istream_cookie.find(f);
     if (it != G.istream_cookie.end()) {
       InStream *is = (InStream *)it->second;
-      if (is->fd >= 0 && is->fd - FD_BASE < (int)G.fds.size()) G.fds[is->fd - FD_BASE].open = false;
+      if (is->fd >= 0 && index_of_fd(is->fd) >= 0 && index_of_fd(is->fd) < (int)G.fds.size()) G.fds[index_of_fd(is->fd)].open = false;
       G.istream_cookie.erase(it);
     }
     return __real_fclose(f);
